@@ -5,7 +5,7 @@
    (Proofs/EncXmlProofs.v §2), hypotheses node_ok / lang_ok (boolean). *)
 From Coq Require Import List NArith Bool.
 From Wbxml Require Import Model.TablesDefs Model.Codec Model.EncXml Model.XmlRead Gen.TablesData
-     Proofs.EncXmlProofs Proofs.EncXmlIndent Proofs.EncXmlTables.
+     Proofs.EncXmlProofs Proofs.EncXmlIndent Proofs.EncXmlC07 Proofs.EncXmlTables.
 Import ListNotations.
 Local Open Scope N_scope.
 
@@ -136,6 +136,18 @@ Theorem C07_xml_compact_canonical_partial : forall l i1 i2 nm attrs ch out1 out2
     exists d, read_xml fuel out1 = ROk d /\ read_xml fuel out2 = ROk d.
 Proof. exact c07_xml_compact_canonical. Qed.
 Print Assumptions C07_xml_compact_canonical_partial.
+
+(* the same for every node kind of the main theorem (CDATA nodes, embedded documents, base64 content) *)
+Theorem C07_xml_compact_canonical : forall l i1 i2 nm attrs ch out1 out2,
+  lang_ok l = true -> plain_attrs_g (Elt nm attrs ch) = true ->
+  node_ok_g l (opts_of_params Compact i1 true) proot None (Elt nm attrs ch) = true ->
+  node_ok_g l (opts_of_params Canonical i2 true) proot None (Elt nm attrs ch) = true ->
+  enc_xml l Compact i1 true [Elt nm attrs ch] = XOk out1 ->
+  enc_xml l Canonical i2 true [Elt nm attrs ch] = XOk out2 ->
+  forall fuel, (node_fuel (Elt nm attrs ch) + 2 <= fuel)%nat ->
+    exists d, read_xml fuel out1 = ROk d /\ read_xml fuel out2 = ROk d.
+Proof. exact c07_xml_compact_canonical_g. Qed.
+Print Assumptions C07_xml_compact_canonical.
 
 (* indented generation with ANY indent width (an arbitrary N, reduced mod 256 as the C's WB_UTINY) at any nesting
    depth (8-bit depth counter mod 256) and compact generation of one tree: both are accepted, carry the
